@@ -56,6 +56,7 @@ def run(ctx, drv):
     names = sorted(POP_ALGOS | set(ARCHIVE_RESULT) | {"GA", "ES"})
     ncfg = 200 if ctx.quick() else 2500
     cfgs = runs.gen_configs(rng, ncfg, names=names, sizes=(4, 5, 6, 8, 9, 12, 13), nobjs_choices=(1, 2, 2, 3, 3, 4, 5), constrained_rate=0.45)
+    n3_replayed = 0
     for ci, cfg in enumerate(cfgs):
         name, spec = cfg["name"], cfg["spec"]
         budget = cfg["size"] * rng.choice([4, 6, 9])
@@ -70,6 +71,20 @@ def run(ctx, drv):
             continue
         constrained, dirs = spec.nconstrs > 0, spec.dirs
         steps = [s for sg in runs.segments(tr) for s in sg["steps"]]
+        # ------------------------------------------------ NSGA-III: every generation's environmental selection replayed by the model
+        # (population as handed to _reference_point_truncate, ideal point before, the recorded random.choice outcomes)
+        if name == "NSGAIII" and getattr(tr, "n3", None):
+            refs_w = f"{len(alg.reference_points)} " + " ".join(wlist([float(v) for v in r_], wf) for r_ in alg.reference_points)
+            for gi, rec in enumerate(tr.n3):
+                line = (f"nsga3 {int(constrained)} {dirs_w(dirs)} {rec['size']} {wlist(rec['ideal_before'], wf)} {refs_w} {len(rec['ids'])} "
+                        + " ".join(f"{i_} {wf(c_)} {wlist(o_, wf)}" for i_, c_, o_ in zip(rec["ids"], rec["cv"], rec["objs"]))
+                        + f" {len(rec['tape'])} " + " ".join(f"{n_} {k_}" for n_, k_ in rec["tape"]))
+                want = "v " + (" ".join(map(str, rec["survivors"])) or "-") + " | " + wlist(rec["ideal_after"], wf) + " | 0"
+                detail = dict(inp, generation=gi, population_in=[[i_, o_, c_] for i_, o_, c_ in zip(rec["ids"], rec["objs"], rec["cv"])][:30],
+                              size=rec["size"], draws=rec["tape"][:30], survivors=rec["survivors"])
+                ask(line, lambda g, want=want, detail=detail: None if g.strip() == want.strip()
+                    else ctx.disagree("NSGA-III survival in a real run (nsga3Truncate: survivors, ideal point, draws consumed) = next population", detail, want[:300], g[:300]))
+                n3_replayed += 1
         N = getattr(alg, "population_size", None)
         prev = None
         prev_pop_gaes = prev_fit_gaes = None
@@ -219,6 +234,7 @@ def run(ctx, drv):
             else ctx.disagree("SPEA2 _assign_fitness + _truncate as a function (spea2Survival)", inp, obs, g))
         ctx.case(("spea2fn", repr(inp)), n > N)
     ctx.count("spea2_function_cases", 300 if ctx.quick() else 6000)
+    ctx.count("nsga3_generations_replayed", n3_replayed)
     # ---- NSGA-III's environmental selection as a function (ranks, ideal point, intercepts, association, niching with the
     # recorded random.choice outcomes): the model must reproduce survivors and ideal point exactly
     import n3fn
